@@ -514,18 +514,22 @@ static void sess_##P(rng_t *r, uint64_t idx)                                    
         uint8_t *exp = (uint8_t *)galloc(mlen + 16, 0), *m2 = (uint8_t *)galloc(mlen, 0);             \
         uint8_t want[16];                                                                             \
         int mode = (int)rng_below(r, 3); /* 0 encrypt, 1 good decrypt, 2 bad decrypt */               \
+        int nonce_ok;                                                                                 \
         rng_bytes(r, ad, adlen); rng_bytes(r, m, mlen);                                               \
         memcpy(ni, n0, 16); ref_nonce_add(ni, i);                                                     \
         memcpy(want, n0, 16); ref_nonce_add(want, i + 1);                                             \
         ONE_ENC(exp, &cl, m, mlen, ad, adlen, ni, k);                                                 \
         P##_aead_start(st, ad, adlen);                                                                \
-        if (memcmp(st->nonce, want, 16) != 0)                                                         \
+        nonce_ok = memcmp(st->nonce, want, 16) == 0;                                                  \
+        if (!nonce_ok)                                                                                \
             vf_violation("C14", "sess:" #P ":nonce-field", "\"n0\":\"%s\",\"packet\":%u,\"field\":\"%s\",\"want\":\"%s\"", vf_h(n0, 16), i, vf_h(st->nonce, 16), vf_h(want, 16)); \
         vf_out(st->nonce, 16);                                                                        \
         if (mode == 0) {                                                                              \
             P##_aead_encrypt_block(st, m, c, mlen);                                                   \
             P##_aead_encrypt_finalize(st, c + mlen);                                                  \
             vf_eq("C14", "sess:" #P ":packet-ciphertext", "packet i vs one-shot under N+i", c, exp, mlen + 16, "\"n0\":\"%s\",\"packet\":%u,\"chain\":%u", vf_h(n0, 16), i, chain); \
+            /* the nonce field was right: then a wrong packet is (also) a wrong incremental encryption */ \
+            if (nonce_ok) vf_eq("C01", "sess:" #P ":packet-ciphertext", "packet i of a session vs one-shot (nonce field correct)", c, exp, mlen + 16, "\"n0\":\"%s\",\"packet\":%u,\"mlen\":%zu", vf_h(n0, 16), i, mlen); \
             vf_out(c, mlen + 16);                                                                     \
         } else {                                                                                      \
             int res;                                                                                  \
@@ -533,6 +537,7 @@ static void sess_##P(rng_t *r, uint64_t idx)                                    
             P##_aead_decrypt_block(st, exp, m2, mlen);                                                \
             res = P##_aead_decrypt_finalize(st, exp + mlen);                                          \
             if ((mode == 1) != (res >= 0)) vf_violation("C14", "sess:" #P ":packet-decrypt", "\"n0\":\"%s\",\"packet\":%u,\"mode\":%d,\"res\":%d", vf_h(n0, 16), i, mode, res); \
+            if (nonce_ok && (mode == 1) != (res >= 0)) vf_violation("C02", mode == 1 ? "sess:" #P ":valid-packet-rejected" : "sess:" #P ":forged-packet-accepted", "\"n0\":\"%s\",\"packet\":%u,\"mlen\":%zu,\"res\":%d", vf_h(n0, 16), i, mlen, res); \
             if (mode == 1) vf_eq("C14", "sess:" #P ":packet-plaintext", "decrypted packet", m2, m, mlen, "\"packet\":%u", i); \
             vf_out_int(res < 0);                                                                      \
         }                                                                                             \
